@@ -71,6 +71,14 @@ def evaluate(case):
 
 
 def _evaluate(case):
+    from mc.env import dask
+
+    # 'tasks' shuffles: row order inside shuffled partitions is then deterministic
+    with dask.config.set({"dataframe.shuffle.method": "tasks"}):
+        return _evaluate_inner(case)
+
+
+def _evaluate_inner(case):
     info, viols = {}, []
     try:
         src = tables.source(case["src"])
@@ -159,7 +167,8 @@ def _evaluate(case):
             viols.append({"kind": "reoptimize_raises:" + exc_kind(e), "detail": f"{label}: {short(e)}"})
             continue
         except Exception as e:  # noqa: BLE001
-            viols.append({"kind": "reoptimize_raises:" + exc_kind(e), "detail": f"{label}: {short(e)}"})
+            if typ.defined:
+                viols.append({"kind": "reoptimize_raises:" + exc_kind(e), "detail": f"{label}: {short(e)}"})
             continue
         if again.npartitions != opt.npartitions:
             viols.append({"kind": "reoptimize_changes:npartitions", "detail": f"{label}: {again.npartitions} != {opt.npartitions}"})
